@@ -4,11 +4,12 @@
 -/
 import Sidetree.Json
 import Sidetree.Drv.Window
+import Sidetree.Drv.Hash
 
 open Sidetree
 
 def handlers : List (String × (Json → Json)) :=
-  [("window", Drv.window)]
+  [("window", Drv.window), ("jcs", Drv.jcs), ("num", Drv.num), ("mh", Drv.mh), ("commit", Drv.commit)]
 
 def answer (line : String) : String :=
   let cs := line.toList
